@@ -21,9 +21,14 @@ type history struct {
 	Idx  []int    `json:"read_index"`
 	Size []string `json:"size"`
 	Uni  string   `json:"uniform,omitempty"`
+	EOF  bool     `json:"eof_with_last_bytes,omitempty"` // the final Read reports io.EOF together with its bytes
 }
 
 func (h history) String() string {
+	if h.EOF {
+		h.EOF = false
+		return h.String() + " +eof-with-last-bytes"
+	}
 	if h.Uni != "" {
 		return "uniform(" + h.Uni + ")"
 	}
@@ -57,7 +62,7 @@ func sizeOf(code string, req int) int {
 }
 
 func (h history) source(data []byte) *seam.Source {
-	src := &seam.Source{Data: data}
+	src := &seam.Source{Data: data, EOFWithData: h.EOF}
 	src.Policy = func(call, req, rem int) (seam.Answer, bool) {
 		if h.Uni != "" {
 			if h.Uni == "alt" {
@@ -133,6 +138,9 @@ func Run(ctx *common.Ctx) int {
 			for _, u := range unis {
 				jobs = append(jobs, seqJob{w, sc, history{Uni: u}})
 			}
+			// the stream ends exactly after the last sample and the Read delivering its last bytes also reports io.EOF
+			jobs = append(jobs, seqJob{w, sc, history{EOF: true}}, seqJob{w, sc, history{Uni: "half", EOF: true}}, seqJob{w, sc, history{Uni: "997", EOF: true}},
+				seqJob{w, sc, history{Idx: []int{w.S - 1}, Size: []string{"minus1"}, EOF: true}})
 		}
 	}
 	refs := map[string]fast.Ref{}
@@ -298,6 +306,8 @@ func Run(ctx *common.Ctx) int {
 				for _, u := range unis {
 					specs = append(specs, fast.SrcSpec{Kind: "uniform", Index2: -1, Size: u})
 				}
+				// the stream ends exactly after the last sample; its final Read reports io.EOF together with the bytes
+				specs = append(specs, fast.SrcSpec{Kind: "eofwith", Index2: -1}, fast.SrcSpec{Kind: "eofwith", Index2: -1, Size: "half"})
 				for _, scn := range []string{cat[0].Name, cat[1].Name} {
 					if quick && scn != cat[0].Name && pol != 0 {
 						continue
@@ -365,7 +375,7 @@ func Run(ctx *common.Ctx) int {
 	cov["distinct_nontrivial"] = sigs.Len()
 	cov["sequential_history_runs"] = int(evals)
 	cov["parallel_schedules"] = m.Execs
-	cov["rule"] = "read-size history = per-Read answer from {all requested, 1, ceil(req/2), req-1}; sequential workflows: every history with <= 2 deviations at every Read index (Factory/PowerOn: adjacent and far pairs in quick) plus uniform policies, on three verdict-sensitive marker-stream scenarios; " +
+	cov["rule"] = "read-size history = per-Read answer from {all requested, 1, ceil(req/2), req-1}, and exact-length streams whose final Read reports io.EOF together with its bytes; sequential workflows: every history with <= 2 deviations at every Read index (Factory/PowerOn: adjacent and far pairs in quick) plus uniform policies, on three verdict-sensitive marker-stream scenarios; " +
 		"SingleDetect: all 2^15 compositions of 16 bytes (thorough also all 2^19 of 20), <= 2 cut points for 40/1280(/4096) bytes; parallel workflows under the controlled scheduler: <= 2 short reads at every Read index and uniform policies at deviation bound 0 under four default policies, one short read x one scheduling deviation (W=2) at bound 1; " +
 		"distinct = distinct (workflow, scenario, history) and distinct schedule outcome signatures"
 	cov["exhaustive"] = cov["exhaustive"].(bool) && !capped
